@@ -232,6 +232,11 @@ def cases(chunk):
                 # a track that starts exactly on the equator, seen from a base on the equator (Z = 0 exactly)
                 pts[0][1] = 0.0
                 b1 = [b1[0], 0.0, b1[2]]
+            if rng.random() < 0.12:
+                # the base is the foot of (or a mark above) the first / the last fix: same longitude and latitude, another
+                # height (GeoCoords(lon0, lat0) with the default height 0 is the usual way to write it)
+                ref = pts[0] if rng.random() < 0.7 else pts[-1]
+                b1 = [ref[0], ref[1], 0.0 if rng.random() < 0.6 else min(9990.0, ref[2] + 12.5)]
             b2 = _point(rng)
             r2 = rng.random()
             if r2 < 0.12:
@@ -540,6 +545,8 @@ def _run_track(case, ctx):
     else:
         b1 = case["b1"]
         base = _base_obj(form, b1)
+    if base is not None and b1[0] == pts[0][0] and b1[1] == pts[0][1] and b1[2] != pts[0][2]:
+        ctx.count("base_at_the_foot_of_the_first_fix")
     # -> ENU(b1)
     _need(M.call(tr.toENUCoords, base), "Track.toENUCoords(base)", track=pts, base=b1, base_form=form)
     _srid(tr, "ENU", "Track.toENUCoords")
@@ -755,7 +762,7 @@ def classify(case, witness):
 
 # floors for the call-history workloads added in session 3 (a run in which they were silently skipped is inconclusive)
 _floors_base = floors
-_FLOORS_EXTRA = {'counters': {'caller_reuses_base_object': 200, 'moved_base_object_used_again_at_once': 100, 'second_track_with_the_same_base_object': 100,
+_FLOORS_EXTRA = {'counters': {'caller_reuses_base_object': 200, 'moved_base_object_used_again_at_once': 100, 'base_at_the_foot_of_the_first_fix': 40, 'second_track_with_the_same_base_object': 100,
                               'track_rebased_to_a_base_above_or_below_the_first': 25}}
 
 
